@@ -7,6 +7,8 @@ the sub-scheduler (which imports this module through subrun's load_modules) find
        new_execution (bool), executor (name in the caller's config), cache_scope / check_valid (forwarded with
        subrun.options(...)), aslist (bool: hand the children over as a nested list of calls instead of one call)
      returns subrun(<child call(s)>, executor=..., new_execution=...)
+  kind 'ctx'    : returns ["ctx", payload, <context variable k>, <context variable j>] ("none" when unset); the harness
+       defines k (never j) in the scheduler's config-level context for some programs
   every other kind behaves exactly as in vm.py.
 
 `erase(spec)` removes the subrun nodes: the same program evaluated directly.
@@ -35,7 +37,7 @@ def node38(spec):
     if kind == "raise":
         raise ValueError(payload)
     if kind == "ctx":
-        return ["ctx", payload, get_context("k", "none")]
+        return ["ctx", payload, get_context("k", "none"), get_context("j", "none")]
     calls = [call38(ch) for ch in children]
     if kind == "list":
         return [payload, calls]
@@ -92,7 +94,7 @@ def direct38(spec):
     if kind == "raise":
         raise ValueError(payload)
     if kind == "ctx":
-        return ["ctx", payload, get_context("k", "none")]
+        return ["ctx", payload, get_context("k", "none"), get_context("j", "none")]
     calls = [calld(ch) for ch in children]
     if kind == "list":
         return [payload, calls]
@@ -127,7 +129,7 @@ def ref_eval38(spec, ctx=None):
     if kind == "leaf":
         return payload
     if kind == "ctx":
-        return ["ctx", payload, myctx.get("k", "none")]
+        return ["ctx", payload, myctx.get("k", "none"), myctx.get("j", "none")]
     if kind == "raise":
         raise Raised([str(payload)])
     if kind in ("list", "plainlist") or (kind == "subrun" and dict(payload).get("aslist")):
@@ -181,7 +183,7 @@ def ref_outcomes(spec, ctx=None):
     if kind == "leaf":
         return {("val", freeze(payload))}
     if kind == "ctx":
-        return {("val", ("ctx", payload, myctx.get("k", "none")))}
+        return {("val", ("ctx", payload, myctx.get("k", "none"), myctx.get("j", "none")))}
     if kind == "raise":
         return {("err", str(payload))}
     kids = [ref_outcomes(ch, myctx) for ch in children]
